@@ -113,7 +113,35 @@ fn canon_const(ts: impl ToTokens) -> String {
     for p in ["std::time::Duration::from_secs", "tokio::time::Duration::from_secs", "core::time::Duration::from_secs", "Duration::from_secs"] {
         s = s.replace(p, "secs");
     }
-    s
+    // the same duration written in milliseconds, or as a product of integer literals
+    for p in ["std::time::Duration::from_millis", "tokio::time::Duration::from_millis", "core::time::Duration::from_millis", "Duration::from_millis"] {
+        s = s.replace(p, "millis");
+    }
+    fn product(arg: &str) -> Option<u128> {
+        let mut v: u128 = 1;
+        for f in arg.split('*') {
+            v = v.checked_mul(f.trim().parse::<u128>().ok()?)?;
+        }
+        Some(v)
+    }
+    let mut out = String::new();
+    let mut rest = s.as_str();
+    loop {
+        let next = ["secs(", "millis("].iter().filter_map(|k| rest.find(k).map(|i| (i, *k))).min();
+        let Some((i, k)) = next else { break };
+        let after = &rest[i + k.len()..];
+        let Some(j) = after.find(')') else { break };
+        let val = product(&after[..j]);
+        out.push_str(&rest[..i]);
+        match (k, val) {
+            ("secs(", Some(v)) => out.push_str(&format!("secs({v})")),
+            ("millis(", Some(v)) if v % 1000 == 0 => out.push_str(&format!("secs({})", v / 1000)),
+            _ => out.push_str(&rest[i..i + k.len() + j + 1]),
+        }
+        rest = &after[j + 1..];
+    }
+    out.push_str(rest);
+    out
 }
 
 /// Parse `number = .., length = .., encoding = ..` (zvt_bmp) exactly like ZvtBmp::parse.
